@@ -1,5 +1,6 @@
 import RedactVerif.Props.L2
 import RedactVerif.Props.FactsClassify
+import RedactVerif.Props.FactsSkelPrinter
 /-
 C11 — printing never fails: all inputs accepted, user-method panics contained.
 
